@@ -290,6 +290,7 @@ func (e *Enc) execStore(in *ssa.Store) {
 		e.nilCheck(e.val(in.Addr).T, in.Pos(), "store through nil pointer")
 	}
 	v := e.val(in.Val).T
+	e.guardCheck(in.Addr, true, in.Pos())
 	e.frameCheckLoc(l, in.Pos())
 	e.store(e.cur, l, v)
 	e.applyAts("store", e.storeTargetName(in), in.Pos(), nil, nil)
@@ -327,6 +328,7 @@ func (e *Enc) execUnOp(in *ssa.UnOp) {
 		if _, static := e.locs[in.X]; !static {
 			e.nilCheck(x.T, in.Pos(), "load through nil pointer")
 		}
+		e.guardCheck(in.X, false, in.Pos())
 		t := e.load(e.cur, l)
 		t = e.define("ld_"+in.Name(), e.sortOf(in.Type()), t)
 		e.vals[in] = Val{T: t}
